@@ -36,6 +36,33 @@
  */
 
 /**
+ * @brief Get the key predicate of a list path segment that is to be printed as the n-th one, which is the predicate
+ * of the n-th key of the list so that the order of the predicates in a value is not significant.
+ *
+ * @param[in] seg Path segment of a list with key predicates.
+ * @param[in] n Index of the predicate.
+ * @return Predicate to print.
+ */
+static struct ly_path_predicate *
+instanceid_key_predicate(const struct ly_path *seg, LY_ARRAY_COUNT_TYPE n)
+{
+    const struct lysc_node *key;
+    LY_ARRAY_COUNT_TYPE u;
+
+    key = lysc_node_child(seg->node);
+    for (u = 0; key && (u < n); ++u) {
+        key = key->next;
+    }
+    LY_ARRAY_FOR(seg->predicates, u) {
+        if (seg->predicates[u].key == key) {
+            return &seg->predicates[u];
+        }
+    }
+
+    return &seg->predicates[n];
+}
+
+/**
  * @brief Convert compiled path (instance-identifier) into string.
  *
  * @param[in] path Compiled path.
@@ -90,6 +117,11 @@ instanceid_path2str(const struct ly_path *path, LY_VALUE_FORMAT format, void *pr
         /* node predicates */
         LY_ARRAY_FOR(path[u].predicates, v) {
             struct ly_path_predicate *pred = &path[u].predicates[v];
+
+            if (pred->type == LY_PATH_PREDTYPE_LIST) {
+                /* key-predicates in the order of the keys */
+                pred = instanceid_key_predicate(&path[u], v);
+            }
 
             switch (pred->type) {
             case LY_PATH_PREDTYPE_POSITION:
